@@ -22,7 +22,10 @@ P = {
              "(state, operation, state') is replayed from its witness path into the real applier and all 16 "
              "projected fields plus the error verdict are compared; random histories of the real code are then "
              "validated step by step by TLC (ApplierTrace.tla) with the invariants and action properties evaluated "
-             "on every observed step. Exhaustive within the bound, sampled beyond it.",
+             "on every observed step. Exhaustive within the bound, sampled beyond it. Thorough tier: the invariants "
+             "and action properties of Applier.tla are additionally proved with TLAPS for histories of any length over "
+             "any alphabet (spec/proofs/ApplierProofs.tla) - a statement about the specification, bound to the code by "
+             "the replay and trace stages.",
         ref="DESIGN.md 3 C01"),
     "C02": dict(
         level="model_checking", engine="applier",
@@ -213,7 +216,10 @@ P["C20"] = dict(
     technique="TLA+ model of the lock-protected registries (Registry.tla) checked by TLC over all interleavings; recorded "
               "histories of the real registries decided linearizable by TLC (RegistryTrace.tla); shared stateless "
               "components compared with sequential results under the Go race detector",
-    text="TLC verifies the design (mutual exclusion, linearization, termination) for 3 processes; histories of real "
+    text="Versions.tla gives the sequential registry / version provider / namespace provider objects and every "
+         "transition of it is replayed on the real objects; "
+         "TLC verifies the lock design (mutual exclusion, linearization, termination) for 3 processes (thorough tier: "
+         "TLAPS proves the safety part for any number of processes, spec/proofs/RegistryProofs.tla); histories of real "
          "concurrent Add / Lookup calls are validated by TLC with the linearization point as a silent step; data-race "
          "freedom and result equality of the shared stateless components are observed with -race on the schedules "
          "that occur (several GOMAXPROCS / goroutine counts), which is observation, not proof.",
